@@ -202,6 +202,22 @@ CHECKS = {
         "design_ref": "DESIGN.md section 5, C09",
         "note": TRUSTED + " Filler positions (belonging to no component) are computed by the spec from the table.",
     },
+    "C13": {
+        "technique": "TLA+ spec (MC_Random retry machine over an explicit draw stream; TraceRandom over the "
+                     "Load-composed table and bank list) + TLC; reproducibility by re-execution in-process and in "
+                     "other processes under other hash seeds",
+        "text": "MC_Random: on a synthetic layout with bank/branch/national digit/account, all 16 pinned subsets x "
+                "{no, bank-wide, combined-wide} registry bank x every draw stream (<= 3-4 attempts): result valid, "
+                "pinned unchanged, registry bank used, overflow only after all tries, never an invalid object. "
+                "TraceRandom: every country and the no-country form x seeds x registry on/off x pinned subsets (each "
+                "defined component singly, pairs): valid IBAN / conforming BBAN of the requested country, pinned "
+                "components unchanged or GenerateRandomOverflowError, registry draws listed; every result is "
+                "reproduced with a plain equally seeded Random and in three other processes (PYTHONHASHSEED 1, "
+                "4242, random).",
+        "design_ref": "DESIGN.md section 5, C13",
+        "note": TRUSTED + " The synthetic model is not replayed into the code (it has a synthetic national "
+                          "algorithm); the binding is the trace validation on the real data.",
+    },
 }
 
 NOT_YET = {
